@@ -20,6 +20,8 @@ pub mod c01;
 pub mod c02;
 pub mod present;
 pub mod small;
+#[cfg(sdjwt_verif)]
+pub mod units;
 
 /// Start-up assertions about the build the harness measures (DESIGN.md section 4).
 pub fn selfcheck() {
@@ -66,6 +68,31 @@ pub fn generate(id: &str, thorough: bool, seed: u64, em: &mut Emitter) {
         "C16" => jwtk::generate_c16(thorough, seed, em),
         _ => panic!("unknown property {}", id),
     }
+    unit_cases(id, thorough, seed, em);
+}
+
+/// function-level correspondence cases (kind "unit") of the property; none when the hooks are not compiled in
+#[cfg(sdjwt_verif)]
+fn unit_cases(id: &str, thorough: bool, seed: u64, em: &mut Emitter) {
+    let k = if thorough { 20 } else { 1 };
+    match id {
+        "C01" | "C08" => {
+            units::generate_restore(1500 * k, seed ^ 1, em);
+            units::generate_issuer(600 * k, seed ^ 2, em);
+        }
+        "C03" | "C12" => units::generate_restore(3000 * k, seed ^ 3, em),
+        "C06" | "C07" | "C13" | "C14" => units::generate_issuer(2000 * k, seed ^ 4, em),
+        "C02" | "C05" | "C09" => units::generate_restore(600 * k, seed ^ 5, em),
+        "C04" | "C11" => units::generate_bv(400 * k, seed ^ 6, em),
+        _ => {}
+    }
+}
+#[cfg(not(sdjwt_verif))]
+fn unit_cases(_id: &str, _thorough: bool, _seed: u64, _em: &mut Emitter) {}
+
+/// "hooks" when the function-level hooks of /repo are compiled in, "nohooks" otherwise
+pub fn hooks_state() -> &'static str {
+    if cfg!(sdjwt_verif) { "hooks" } else { "nohooks" }
 }
 
 pub fn execute(kind: &str, input: &Value) -> Value {
@@ -82,6 +109,8 @@ pub fn execute(kind: &str, input: &Value) -> Value {
         "conform" => c07::exec_conform(input),
         "discbuild" => c07::exec_discbuild(input),
         "decode" => jwtk::exec_decode(input),
+        #[cfg(sdjwt_verif)]
+        "unit" => units::exec_unit(input),
         _ => json!({"harness_error": format!("unknown kind {}", kind)}),
     }
 }
